@@ -823,10 +823,21 @@ impl Adversary for ConnectedAttacker {
             if self.wants_connect.contains(&raw) && !self.syn_nonce.contains_key(&raw) {
                 let nonce = if self.rng.chance(0.3) { 0u32.wrapping_sub(self.rng.below(5000) as u32) } else { self.rng.u32() };
                 self.syn_nonce.insert(raw, nonce);
-                let (rate, pkt, alloc) = match &plan.endpoints[self.server].kind {
+                let (mut rate, mut pkt, mut alloc) = match &plan.endpoints[self.server].kind {
                     EndpointKind::Server { cfg, .. } => (2_000_000u32, cfg.max_receive_alloc.min(1000) as u32, cfg.max_packet_size.max(1000).min(u32::MAX as u64) as u32),
                     _ => (2_000_000, 1000, 1_000_000),
                 };
+                // limits at the edge of what the server accepts (and sometimes beyond: then the
+                // request is refused and the attacker stays unconnected)
+                if self.rng.chance(0.4) {
+                    rate = *self.rng.pick(&[0u32, 1, 22, 23, 1472, 100_000, u32::MAX]);
+                }
+                if self.rng.chance(0.3) {
+                    pkt = *self.rng.pick(&[0u32, 1, pkt, pkt.saturating_add(1), u32::MAX]);
+                }
+                if self.rng.chance(0.3) {
+                    alloc = *self.rng.pick(&[alloc.saturating_sub(1000).max(1), alloc, alloc.saturating_add(1), u32::MAX]);
+                }
                 out.push(TimedOp { t_us: now_us, rank: DELIVER_RANK_PUB, op: Op::Inject { to: self.server, from: raw, bytes: enc_syn(3, nonce, rate, pkt, alloc, 1472), twin: true } });
                 continue;
             }
